@@ -18,7 +18,7 @@ VERIF = os.path.dirname(HERE)
 LEAN_DIR = os.path.join(VERIF, "lean")
 REPO = os.environ.get("YPV_REPO", "/repo")
 DRIVER = os.path.join(LEAN_DIR, ".lake", "build", "bin", "ypv-driver")
-EVIDENCE_DIR = os.path.join(VERIF, "evidence")
+EVIDENCE_DIR = os.environ.get("YPV_EVIDENCE_DIR") or os.path.join(VERIF, "evidence")   # overridden by tools/run_seeded.py only
 REPLAY_DIR = os.path.join(VERIF, "out", "replays")
 KNOWN_FILE = os.path.join(VERIF, "known_findings.json")
 CORPUS_DIR = os.path.join(VERIF, "corpus")
